@@ -13,7 +13,7 @@
       [lines[lineIndex-1:]]; [prev_len] is [len(lines[lineIndex-2])].
     - the inner loop [for gotIndex, got := range []byte(line[columnIndex-1:])] is structural recursion over
       that slice, [col] = [columnIndex+gotIndex]. *)
-From Coq Require Import List String Ascii ZArith Bool Lia.
+From Coq Require Import List String Ascii ZArith NArith Bool Lia.
 From PintV Require Import Common.Bytes Model.CommentsUnicode.
 Import ListNotations.
 Local Open Scope Z_scope.
@@ -21,11 +21,12 @@ Local Open Scope Z_scope.
 Record prange := mkp { pr_line : Z; pr_first : Z; pr_last : Z }.
 
 (** The fields of a [yaml.Node] that [NewPositionRange] reads: Value, Line, Column (in CHARACTERS, as yaml.v3
-    counts them), whether Style has the Literal or Folded bit, and Anchor. *)
-Record snode := mksn { sn_value : string; sn_line : Z; sn_col : Z; sn_block : bool; sn_anchor : string }.
+    counts them), whether Style has the Literal or Folded bit, Anchor, and whether Style has the DoubleQuoted bit
+    ([sn_dq]: escape sequences are decoded while scanning, fix for finding C06-dq-escape). *)
+Record snode := mksn { sn_value : string; sn_line : Z; sn_col : Z; sn_block : bool; sn_anchor : string; sn_dq : bool }.
 
-(** A plain node: not a block scalar, no anchor. *)
-Definition mksn0 (v : string) (l c : Z) : snode := mksn v l c false EmptyString.
+(** A plain node: not a block scalar, no anchor, not double quoted. *)
+Definition mksn0 (v : string) (l c : Z) : snode := mksn v l c false EmptyString false.
 
 Inductive outcome := Ok (p : list prange) | Crash (where_ : string).
 
@@ -77,6 +78,111 @@ Fixpoint scan_line (bytes : string) (line col : Z) (need : ascii) (rest : string
       else scan_line more line (col + 1) need rest offs
   end.
 
+(** ** Double-quoted scalars: an escape sequence is one token standing for the bytes it decodes to. *)
+
+Definition hex_val (c : ascii) : option N :=
+  let n := N_of_ascii c in
+  if (48 <=? n)%N && (n <=? 57)%N then Some (n - 48)%N
+  else if (97 <=? n)%N && (n <=? 102)%N then Some (n - 87)%N
+  else if (65 <=? n)%N && (n <=? 70)%N then Some (n - 55)%N
+  else None.
+
+(** [strconv.ParseUint(s[:digits], 16, 32)] for 2, 4 or 8 digits: [None] = syntax error. *)
+Fixpoint parse_hex (digits : nat) (s : string) (acc : N) : option N :=
+  match digits with
+  | O => Some acc
+  | S d =>
+      match s with
+      | String c r => match hex_val c with Some v => parse_hex d r (acc * 16 + v)%N | None => None end
+      | EmptyString => None
+      end
+  end.
+
+(** [unescape s] ([s] starts with the backslash): (decoded text, number of source bytes of the sequence). *)
+Definition unescape (s : string) : string * nat :=
+  match s with
+  | String _ (String c r) =>
+      let n := N_of_ascii c in
+      let hex (digits : nat) :=
+        if Nat.ltb (String.length r) digits then (EmptyString, String.length s)
+        else match parse_hex digits r 0%N with
+             | Some code => (encode_rune code, (2 + digits)%nat)
+             | None => (EmptyString, 2%nat)
+             end in
+      if (n =? 48)%N then (bs [0%N], 2%nat)
+      else if (n =? 97)%N then (bs [7%N], 2%nat)
+      else if (n =? 98)%N then (bs [8%N], 2%nat)
+      else if (n =? 116)%N || (n =? 9)%N then (bs [9%N], 2%nat)
+      else if (n =? 110)%N then (bs [10%N], 2%nat)
+      else if (n =? 118)%N then (bs [11%N], 2%nat)
+      else if (n =? 102)%N then (bs [12%N], 2%nat)
+      else if (n =? 114)%N then (bs [13%N], 2%nat)
+      else if (n =? 101)%N then (bs [27%N], 2%nat)
+      else if (n =? 78)%N then (bs [194%N; 133%N], 2%nat)
+      else if (n =? 95)%N then (bs [194%N; 160%N], 2%nat)
+      else if (n =? 76)%N then (bs [226%N; 128%N; 168%N], 2%nat)
+      else if (n =? 80)%N then (bs [226%N; 128%N; 169%N], 2%nat)
+      else if (n =? 120)%N then hex 2%nat
+      else if (n =? 117)%N then hex 4%nat
+      else if (n =? 85)%N then hex 8%nat
+      else (String c EmptyString, 2%nat)
+  | _ => (EmptyString, String.length s)
+  end.
+
+(** [strings.HasPrefix(v, d)] and the rest of [v] after [d]. *)
+Fixpoint strip_prefix (d v : string) : option string :=
+  match d with
+  | EmptyString => Some v
+  | String a d' => match v with
+                   | String b v' => if Ascii.eqb a b then strip_prefix d' v' else None
+                   | EmptyString => None
+                   end
+  end.
+
+(** the positions of the decoded bytes: they END where the sequence ends
+    ([columnIndex+gotIndex+max(0, size-len(decoded)+i)]) *)
+Fixpoint append_decoded (n : nat) (i : Z) (line col : Z) (size len : Z) (offs : list prange) : list prange :=
+  match n with
+  | O => offs
+  | S n' => append_decoded n' (i + 1) line col size len (append_position offs line (col + Z.max 0 (size - len + i)))
+  end.
+
+Definition backslash : ascii := "\"%char.
+
+(** The byte loop for a double-quoted scalar; [skip] = Go's [skip] counter. *)
+Fixpoint scan_line_dq (bytes : string) (skip : nat) (line col : Z) (need : ascii) (rest : string) (offs : list prange) : scan_res :=
+  match bytes with
+  | EmptyString => ScanCont need rest offs
+  | String got more =>
+      match skip with
+      | S k => scan_line_dq more k line (col + 1) need rest offs
+      | O =>
+          if Ascii.eqb got backslash then
+            let '(decoded, size) := unescape bytes in
+            let skip' := Nat.pred size in
+            match decoded, strip_prefix decoded (String need rest) with
+            | String _ _, Some left_ =>
+                let offs' := append_decoded (String.length decoded) 0 line col (Z.of_nat size) (slen decoded) offs in
+                match left_ with
+                | EmptyString => ScanDone offs'
+                | String n' r' => scan_line_dq more skip' line (col + 1) n' r' offs'
+                end
+            | _, _ => scan_line_dq more skip' line (col + 1) need rest offs
+            end
+          else if Ascii.eqb need got then
+            let offs' := append_position offs line col in
+            match rest with
+            | EmptyString => ScanDone offs'
+            | String n' r' => scan_line_dq more 0 line (col + 1) n' r' offs'
+            end
+          else scan_line_dq more 0 line (col + 1) need rest offs
+      end
+  end.
+
+(** the byte loop of a node: [dq] = Style has the DoubleQuoted bit *)
+Definition scan (dq : bool) (bytes : string) (line col : Z) (need : ascii) (rest : string) (offs : list prange) : scan_res :=
+  if dq then scan_line_dq bytes 0 line col need rest offs else scan_line bytes line col need rest offs.
+
 Definition is_fold_char (c : ascii) : bool := Ascii.eqb c space || Ascii.eqb c newline.
 
 (** The part of NEXT after [lineIndex++]: a needed ' ' or '\n' is consumed by the line break.
@@ -100,29 +206,29 @@ Definition adjust_col (line : string) (col : Z) (need : ascii) (rest : string) :
     Some (if valSpaces <? lineSpaces then col1 + (lineSpaces - valSpaces) else col1).
 
 (** One iteration of the outer loop up to (excluding) NEXT, after the optional line-break position. *)
-Definition line_step (line : string) (lineIndex col : Z) (need : ascii) (rest : string) (offs : list prange)
+Definition line_step (dq : bool) (line : string) (lineIndex col : Z) (need : ascii) (rest : string) (offs : list prange)
   : option scan_res :=
   if slen line =? 0 then Some (ScanCont need rest offs)
   else match adjust_col line col need rest with
        | None => None
-       | Some col2 => Some (scan_line (sdrop (Z.to_nat (col2 - 1)) line) lineIndex col2 need rest offs)
+       | Some col2 => Some (scan dq (sdrop (Z.to_nat (col2 - 1)) line) lineIndex col2 need rest offs)
        end.
 
 (** The outer loop.  [brk] is the Go variable [lineBreak]: the previous line break was consumed for a ' ' or
     '\n' of the value and gets its position now. *)
-Fixpoint npr_loop (ls : list string) (prev_len lineIndex col minCol : Z) (need : ascii) (rest : string)
+Fixpoint npr_loop (dq : bool) (ls : list string) (prev_len lineIndex col minCol : Z) (need : ascii) (rest : string)
          (offs : list prange) (brk : bool) : outcome :=
   match ls with
   | [] => Ok offs
   | line :: more =>
       let offs1 := if brk then append_position offs (lineIndex - 1) (prev_len + 1) else offs in
-      match line_step line lineIndex col need rest offs1 with
+      match line_step dq line lineIndex col need rest offs1 with
       | None => Crash "slice bounds out of range"
       | Some (ScanDone o) => Ok o
       | Some (ScanCont n r o) =>
           match advance n r with
           | None => Ok o
-          | Some (n', r') => npr_loop more (slen line) (lineIndex + 1) minCol minCol n' r' o (is_fold_char n)
+          | Some (n', r') => npr_loop dq more (slen line) (lineIndex + 1) minCol minCol n' r' o (is_fold_char n)
           end
       end
   end.
@@ -168,7 +274,7 @@ Definition first_col (line : string) (n : snode) : Z :=
 Definition npr_entry (lines : list string) (n : snode) (minCol : Z) (need : ascii) (rest : string) : outcome :=
   if sn_block n then
     if sn_line n + 1 <=? 0 then Crash "index out of range"
-    else npr_loop (skipn (Z.to_nat (sn_line n)) lines) 0 (sn_line n + 1) minCol minCol need rest [] false
+    else npr_loop (sn_dq n) (skipn (Z.to_nat (sn_line n)) lines) 0 (sn_line n + 1) minCol minCol need rest [] false
   else if sn_line n <=? 0 then Crash "index out of range"
   else
     let ls := skipn (Z.to_nat (sn_line n - 1)) lines in
@@ -176,7 +282,7 @@ Definition npr_entry (lines : list string) (n : snode) (minCol : Z) (need : asci
                 | l :: _ => if slen l =? 0 then sn_col n else first_col l n
                 | [] => sn_col n
                 end in
-    npr_loop ls 0 (sn_line n) col0 minCol need rest [] false.
+    npr_loop (sn_dq n) ls 0 (sn_line n) col0 minCol need rest [] false.
 
 Definition new_position_range (lines : list string) (n : snode) (minCol : Z) : outcome :=
   match sn_value n with
@@ -282,7 +388,7 @@ Definition shift_lines (pre : list string) (p : string) (lines : list string) : 
   pre ++ map (fun l => (p ++ l)%string) lines.
 
 Definition shift_node (k d : Z) (n : snode) : snode :=
-  mksn (sn_value n) (sn_line n + k) (sn_col n + d) (sn_block n) (sn_anchor n).
+  mksn (sn_value n) (sn_line n + k) (sn_col n + d) (sn_block n) (sn_anchor n) (sn_dq n).
 
 (** ** Rule line range (parseRule): the accumulation of [lines] over the parts of a rule mapping.
     A part is [(part.Line + offsetLine, field)] where [field] is [Some pos] for the value node of one of the
